@@ -410,13 +410,11 @@ func gobDecodeItem(data []byte) (Item, error) {
 	isObject := false
 	typ := ActivityVocabularyType("")
 	mm, err := gobDecodeObjectAsMap(data)
-	if err == nil {
-		var sTyp []byte
-		sTyp, isObject = mm["type"]
-		if isObject {
+	if err == nil && len(mm) > 0 {
+		// NOTE: any property map is an object, even when it has neither a type nor an id
+		isObject = true
+		if sTyp, ok := mm["type"]; ok {
 			typ = ActivityVocabularyType(sTyp)
-		} else {
-			_, isObject = mm["id"]
 		}
 	}
 	if isObject {
